@@ -271,7 +271,7 @@ pub fn run(prop: &str, args: &Args) -> LegResult {
                         }
                         crashes.push(json!({"class": class, "run": r, "scenario": scn, "detail": j["detail"], "replay": path}));
                         starts[i as usize] = r + 1;
-                        if attempts < 4 {
+                        if attempts < 2 {
                             again.push(i);
                         }
                         continue;
